@@ -50,6 +50,9 @@ FAULTS = {
     'verb_open': ('A \\verb|xy', {}, 2, []),
     'verb_newline': ('A \\verb|x\nKeep Also', {}, 2, ['Keep', 'Also']),
     'verb_later_delim': ('A \\verb|xy\nKeep Also \\verb|z| Last', {}, 2, ['Keep', 'Also', 'z', 'Last']),
+    # line break directly behind \verb / \verb*: no delimiter at all
+    'verb_nl': ('A \\verb\nx y\nKeep Also', {}, 2, ['Keep', 'Also']),
+    'verb_star_nl': ('A \\verb*\nx y\n\nKeep Also', {}, 2, ['Keep', 'Also']),
     'verbatim': ('A\n\\begin{verbatim}\nxx', {}, 2, []),
     'skip': ('A\n%%% LT-SKIP-BEGIN\nKeep Also', {}, 2, ['Keep', 'Also']),
     'skip_second': ('A\n%%% LT-SKIP-BEGIN\nq\n%%% LT-SKIP-END\nB\n%%% LT-SKIP-BEGIN\nKeep', {}, 40,
